@@ -101,6 +101,10 @@ var c09Values = []c09Shape{
 	{Name: "CN", Value: "new.example.net", CNAME: "new.example.net"},
 	{Name: "CNfull", Value: "NOERROR;CNAME;new.example.net", CNAME: "new.example.net"},
 	{Name: "CN2", Value: "other.example.net", CNAME: "other.example.net"},
+	// The same names in another letter case are other values.
+	{Name: "CNupper", Value: "NEW.example.net", CNAME: "NEW.example.net"},
+	{Name: "CNmixedfull", Value: "NOERROR;CNAME;New.Example.NET", CNAME: "New.Example.NET"},
+	{Name: "TXTupper", Value: "NOERROR;TXT;HELLO", RCode: "NOERROR", RR: "TXT", Val: "HELLO"},
 	{Name: "REFUSED", Value: "REFUSED", RCode: "REFUSED"},
 	{Name: "REFUSEDfull", Value: "REFUSED;;", RCode: "REFUSED"},
 	{Name: "NXDOMAIN", Value: "NXDOMAIN;;", RCode: "NXDOMAIN"},
@@ -471,7 +475,7 @@ func init() {
 				pool := c09Full
 				if c.Rng.Intn(3) > 0 {
 					pool = nil
-					fam := [][]string{{"HTTPS", "HTTPSx", "HTTPS0", "HTTPS2"}, {"SVCB", "SVCB0", "SVCB0p"}, {"MX", "MX2", "MX3"}, {"SRV", "SRV2"}, {"TXT", "TXT2", "TXT3"}, {"A1", "A2", "A1full"}, {"AAAA", "AAAA2"}, {"NS", "SOA", "NOERRORkw"}, {"REFUSED", "REFUSEDfull", "NXDOMAIN", "SERVFAIL", "BADKEY", "BADTIME", "NOTAUTH", "BADCOOKIE"}}[c.Rng.Intn(9)]
+					fam := [][]string{{"HTTPS", "HTTPSx", "HTTPS0", "HTTPS2"}, {"SVCB", "SVCB0", "SVCB0p"}, {"MX", "MX2", "MX3"}, {"SRV", "SRV2"}, {"TXT", "TXT2", "TXT3", "TXTupper"}, {"CN", "CNfull", "CN2", "CNupper", "CNmixedfull"}, {"A1", "A2", "A1full"}, {"AAAA", "AAAA2"}, {"NS", "SOA", "NOERRORkw"}, {"REFUSED", "REFUSEDfull", "NXDOMAIN", "SERVFAIL", "BADKEY", "BADTIME", "NOTAUTH", "BADCOOKIE"}}[c.Rng.Intn(10)]
 					for j := 0; j < 3+c.Rng.Intn(3); j++ {
 						v := util.Pick(c.Rng, c09Values).Name
 						if c.Rng.Intn(2) == 0 {
